@@ -65,8 +65,18 @@ func stLaws() (int, error) {
 	if !OnCurve(g) {
 		return n, fmt.Errorf("G not on curve")
 	}
-	if !Mul(N, g).Inf {
+	if !Mul(N, g).Inf || !MulSlow(N, g).Inf {
 		return n, fmt.Errorf("n*G != inf")
+	}
+	for _, k := range []*big.Int{big.NewInt(0), big.NewInt(1), big.NewInt(2), big.NewInt(15), big.NewInt(16), big.NewInt(17), new(big.Int).Sub(N, big.NewInt(1)), new(big.Int).Add(N, big.NewInt(1)), HalfN} {
+		for _, p := range []*Pt{g, Infinity(), Neg(g), MulSlow(big.NewInt(7), g)} {
+			if !Mul(k, p).Eq(MulSlow(k, p)) {
+				return n, fmt.Errorf("Jacobian Mul != affine Mul on special input")
+			}
+		}
+		if !MulG(k).Eq(MulGSlow(k)) {
+			return n, fmt.Errorf("MulG fast != slow on special input")
+		}
 	}
 	if Lambda.Cmp(mustHex("5363ad4cc05c30e0a5261c028812645a122e22ea20816678df02967c1b23bd72")) != 0 {
 		return n, fmt.Errorf("unexpected lambda %x", Lambda)
@@ -79,8 +89,11 @@ func stLaws() (int, error) {
 	for i := 0; i < 24; i++ {
 		a, b, c := Mod(next(), N), Mod(next(), N), Mod(next(), N)
 		Pa, Pb := MulG(a), MulG(b)
-		if !MulG(a).Eq(Mul(a, g)) {
+		if !MulG(a).Eq(Mul(a, g)) || !MulG(a).Eq(MulGSlow(a)) || !Mul(a, g).Eq(MulSlow(a, g)) {
 			return n, fmt.Errorf("MulG != Mul")
+		}
+		if !Mul(c, Pb).Eq(MulSlow(c, Pb)) {
+			return n, fmt.Errorf("Jacobian Mul != affine Mul")
 		}
 		if !Add(Pa, Pb).Eq(MulG(AddM(a, b, N))) {
 			return n, fmt.Errorf("aG+bG != (a+b)G")
